@@ -267,6 +267,8 @@ def _coq_cfg(cfg):
 def correspond(ctx, corr, model_ok):
     rng = ctx.rng
     items = []
+    corr.oracle_failures.extend(reconnect_setup_oracle())
+    corr.count('three connections of one client (loss / explicit reconnect): SETUP first and identical on each', 6)
     # (a) SETUP fields
     for _ in range(ctx.scale(150, 3000)):
         mdarg, mdname = _enc_variants(rng)
@@ -378,6 +380,76 @@ def correspond(ctx, corr, model_ok):
             corr.disagreements.append(dict(items[si * SHARD + i][1], what='setup: implementation vs model/Setup.v'))
 
 
+def run_reconnects(cause, with_request, lenreq):
+    """a client that connects three times in its life (loss or explicit reconnect): what it writes first on EVERY connection"""
+    from rsocket.rsocket_client import RSocketClient
+    from rsocket.request_handler import BaseRequestHandler
+    from rsocket.payload import Payload
+    loop = sim.new_loop()
+    sim.patch_clock(loop)
+    T = sim.make_transport_class()
+    ts = [T(lenreq=lenreq, name='t%d' % i) for i in range(3)]
+
+    async def provider():
+        for x in ts:
+            yield x
+
+    class H(BaseRequestHandler):
+        async def on_close(self, rsocket, exception=None):
+            if cause != 'explicit':
+                await rsocket.reconnect()
+    box = {}
+    try:
+        def mk():
+            box['c'] = RSocketClient(provider(), handler_factory=H, data_encoding=b'application/x-demo', metadata_encoding=b'message/x-meta',
+                                     keep_alive_period=timedelta(milliseconds=12345), max_lifetime_period=timedelta(milliseconds=67890),
+                                     setup_payload=Payload(b'setup-data', b'setup-md'))
+            asyncio.create_task(box['c'].connect())
+        loop.run(mk)
+        loop.settle()
+        c = box['c']
+        for i in (0, 1):
+            if cause == 'eof':
+                ts[i].inject_eof()
+            elif cause == 'error':
+                ts[i].inject_error()
+            else:
+                loop.run(lambda: asyncio.create_task(c.reconnect()))
+            if with_request:
+                loop.run(lambda: c.fire_and_forget(Payload(b'during-reconnect')))
+            loop.settle()
+            if with_request:
+                loop.run(lambda: c.fire_and_forget(Payload(b'after-reconnect')))
+                loop.settle()
+        return [[sim.parse_sent(b) for b in t.sent] for t in ts], [t.connected for t in ts]
+    finally:
+        loop.finish()
+
+
+def reconnect_setup_oracle():
+    out = []
+    for cause in ('eof', 'error', 'explicit'):
+        for with_request in (False, True):
+            wires, connected = run_reconnects(cause, with_request, True)
+            bad = []
+            setups = []
+            for i, w in enumerate(wires):
+                if not connected[i]:
+                    bad.append('connection %d was never made' % i)
+                    continue
+                if not w or w[0]['t'] != 'Setup':
+                    bad.append('connection %d starts with %s, not SETUP' % (i, w[0]['t'] if w else 'nothing'))
+                if sum(1 for f in w if f['t'] == 'Setup') > 1:
+                    bad.append('connection %d carries more than one SETUP' % i)
+                setups += [f for f in w if f['t'] == 'Setup'][:1]
+            if any(x != setups[0] for x in setups[1:]):
+                bad.append('SETUP differs between connections of the same client')
+            if bad:
+                out.append({'what': 'reconnecting client: ' + '; '.join(bad[:3]), 'kind': 'reconnect-setup',
+                            'reconnect_setup_case': [cause, with_request]})
+    return out
+
+
 def search(ctx, budget_s):
     from harness.common import CorrResult
     c = CorrResult()
@@ -387,6 +459,8 @@ def search(ctx, budget_s):
 
 def replay(obj):
     case = obj['case']
+    if case.get('kind') == 'reconnect-setup':
+        return bool(reconnect_setup_oracle())
     if case['kind'] == 'order':
         script = {int(k): v for k, v in case['script'].items()}
         bad = False
